@@ -406,10 +406,17 @@ func genDictCase(r *rng.R) corr.Case {
 // genSizeCase: containers and tokens of the sizes named by integer literals of the tree under test (literal−1, literal,
 // literal+1) and of a few fixed large sizes.
 func genSizeCase(r *rng.R) corr.Case {
-	sizes := lits.sizes(70000)
+	big := r.Chance(1, 120)
+	max := int64(3000)
+	if big {
+		max = 70000
+	}
+	sizes := lits.sizes(max)
 	n := sizes[r.Intn(len(sizes))]
-	for tries := 0; n > 3000 && tries < 3 && !r.Chance(1, 4); tries++ {
-		n = sizes[r.Intn(len(sizes))]
+	if big {
+		for tries := 0; n <= 3000 && tries < 8; tries++ {
+			n = sizes[r.Intn(len(sizes))]
+		}
 	}
 	return sizeCase(r, n)
 }
